@@ -318,9 +318,12 @@ package bchutil
 
 //@ func bchutil.(*Block).Bytes
 //@   requires b.msgBlock != nil
+//@   requires len(b.serializedBlock) != 0 ==> len(b.serializedBlock) == wire.bsize(b.msgBlock.ref, b.msgBlock.off)
 //@   ensures old(len(b.serializedBlock)) != 0 ==> err == nil && sameobj(result0, old(b.serializedBlock)) && len(result0) == old(len(b.serializedBlock))
+//@   ensures err == nil ==> len(result0) == wire.bsize(b.msgBlock.ref, b.msgBlock.off) && sameobj(b.serializedBlock, result0) && len(b.serializedBlock) == len(result0)
+//@   ensures err != nil ==> len(b.serializedBlock) == 0
 //@   modifies b.serializedBlock
-//@   assert after Serialize#1: true
+//@   assert after Serialize#1: $arg0 == b.msgBlock
 
 //@ func bchutil.(*Block).TxLoc
 //@   requires b.msgBlock != nil
@@ -491,4 +494,23 @@ package bchutil
 //@   assert after Format#1: $arg0 == a && $arg1 == AmountBCH
 
 //@ func bchutil.(AmountUnit).String
+//@   modifies nothing
+
+//@ func bchutil.NewBlockFromReader
+//@   requires typeis(r, "bytes.*Reader")
+//@   ensures err == nil ==> result0 != nil && fresh(result0) && result0.msgBlock != nil && fresh(result0.msgBlock) && len(result0.serializedBlock) == 0 && len(result0.transactions) == 0 && !result0.txnsGenerated && result0.blockHash == nil && result0.blockHeight == -1
+//@   ensures err == nil ==> *unbox(r, "bytes.*Reader") == old(*unbox(r, "bytes.*Reader")) - wire.bsize(result0.msgBlock.ref, result0.msgBlock.off) && *unbox(r, "bytes.*Reader") >= 0
+//@   ensures err == nil ==> forall k :: 0 <= k && k < len(result0.msgBlock.Transactions) ==> result0.msgBlock.Transactions[k] != nil
+//@   ensures err != nil ==> result0 == nil
+//@   modifies *unbox(r, "bytes.*Reader")
+
+//@ func bchutil.NewBlockFromBytes
+//@   ensures err != nil ==> result0 == nil
+//@   ensures err == nil ==> result0 != nil && fresh(result0) && result0.msgBlock != nil && len(result0.transactions) == 0 && !result0.txnsGenerated && result0.blockHash == nil
+//@   ensures err == nil ==> sameobj(result0.serializedBlock, serializedBlock) && result0.serializedBlock.off == serializedBlock.off
+//@   ensures err == nil ==> len(result0.serializedBlock) == wire.bsize(result0.msgBlock.ref, result0.msgBlock.off)
+//@   modifies nothing
+
+//@ func bchutil.NewBlockFromBlockAndBytes
+//@   ensures result != nil && fresh(result) && result.msgBlock == msgBlock && sameobj(result.serializedBlock, serializedBlock) && len(result.serializedBlock) == len(serializedBlock) && len(result.transactions) == 0 && !result.txnsGenerated && result.blockHash == nil && result.blockHeight == -1
 //@   modifies nothing
